@@ -65,7 +65,7 @@ def list_observables(dic):
         if isinstance(obj, CallableModel):
             out.append((oid, "call"))
         if isinstance(obj, Model):
-            for acc in ("rates", "probabilities", "branch_lengths", "node_heights", "q", "frequencies", "precision_matrix"):
+            for acc in ("rates", "probabilities", "branch_lengths", "node_heights", "q", "frequencies", "precision_matrix", "p_t"):
                 if hasattr(type(obj), acc) or hasattr(obj, acc):
                     out.append((oid, acc))
             out.append((oid, "sample_shape"))
@@ -79,6 +79,8 @@ def read(obj, acc):
         return obj()
     if acc == "tensor":
         return obj.tensor
+    if acc == "p_t":
+        return obj.p_t(torch.tensor([[0.1], [0.7]], dtype=torch.get_default_dtype()))
     if acc == "sample_shape":
         return torch.tensor(list(obj.sample_shape), dtype=torch.int64)
     v = getattr(obj, acc)
@@ -273,7 +275,9 @@ class History:
             self.apply_raw(op)
         except Exception as e:  # noqa: BLE001 - "a parameter update never raises"
             tb = traceback.format_exc()
-            if self.invalid_on_fresh(op, e, vals_before):
+            # "not supported by design" (e.g. assignment through a transform without inverse)
+            # is not a valid update; anything else on a well-formed update is judged
+            if isinstance(e, NotImplementedError) and self.invalid_on_fresh(op, e, vals_before):
                 self.stats["invalid_update_agree"] = self.stats.get("invalid_update_agree", 0) + 1
                 self.log.add("invalid_update", kind, op.get("id"), type(e).__name__)
                 self._fresh_key = None
@@ -281,7 +285,7 @@ class History:
             where = "?"
             for line in tb.splitlines():
                 line = line.strip()
-                if line.startswith("File") and "/torchtree/" in line:
+                if line.startswith("File") and "/torchtree/" in line and not line.endswith("__getattr__"):
                     where = line.split("/torchtree/")[-1].split('"')[0] + ":" + line.split(" in ")[-1]
             self.violations.append({"signature": {"engine": "hist_cache", "oracle": "update_raises", "class": type(e).__name__, "accessor": where, "via": self.last_update_kind},
                                     "message": "update %s raised %s: %s" % (self.last_update, type(e).__name__, str(e)[:200])})
